@@ -23,7 +23,7 @@ from sqlalchemy import (
 )
 from sqlalchemy.dialects import sqlite as _sqlite
 from sqlalchemy.ext import serializer
-from sqlalchemy.orm import Session, defaultload, defer, joinedload, lazyload, scoped_session, selectinload, sessionmaker, undefer
+from sqlalchemy.orm import Session, aliased, defaultload, defer, joinedload, lazyload, scoped_session, selectinload, sessionmaker, undefer
 from sqlalchemy.schema import CreateIndex, CreateTable
 
 from vf import sautil
@@ -734,6 +734,33 @@ def _build_stmt(spec, session):
     elif frm == "group":
         stmt = select(it.c.label, func.count(it.c.id).label("n"), func.sum(it.c.qty)).group_by(it.c.label).order_by(it.c.label)
         allowed = {"item"}
+    elif frm.startswith("alias_"):
+        # aliased() entities: their AliasedInsp is pickled by value (__getstate__/__setstate__), every constructor flag must survive
+        ut = U.__table__
+        form = frm[6:]
+        if form == "plain":
+            UA = aliased(U)
+        elif form == "named":
+            UA = aliased(U, name="ua")
+        elif form == "subquery":
+            UA = aliased(U, select(ut).where(ut.c.id > spec["k"] % 3).subquery("usq"))
+        elif form == "archive_names":
+            UA = aliased(U, M.user_archive, adapt_on_names=True)
+        elif form == "archive_sub_names":
+            UA = aliased(U, select(M.user_archive).where(M.user_archive.c.id > 100 + spec["k"] % 3).subquery("asq"), adapt_on_names=True)
+        elif form == "flat_join":
+            UA = aliased(U, ut.join(M.Address.__table__, isouter=True), flat=True)
+        else:
+            raise ValueError(form)
+        if spec["extra"] == "pair":
+            stmt = select(U.id, UA).join_from(U, UA, U.nick == UA.nick).order_by(U.id, UA.id)
+        elif spec["extra"] == "cols":
+            stmt = select(UA.id, UA.name, UA.nick).order_by(UA.id)
+        else:
+            stmt = select(UA).order_by(UA.id)
+        if spec["preds"]:
+            stmt = stmt.where(UA.id > spec["k"] % 4) if spec["comb"] != "not" else stmt.where(not_(UA.name == f"user{spec['k'] % 3}"))
+        return stmt, "stmt"
     else:
         raise ValueError(frm)
     use = [pr for pr, p in zip(preds, spec["preds"]) if p[0].split(".")[0] in allowed]
@@ -771,15 +798,24 @@ def check_serializer(case, ctx):
         sess = SS()
         stmt, kind = _build_stmt(case, sess)
         has_bind = bool(case["preds"]) or case["extra"] in ("exists", "subquery", "union", "case", "limit", "arith")
-        has_entity = case["from"].startswith("orm")
-        has_table = case["from"] in ("core", "core_join_table", "orm_core_join", "group") or case["extra"] == "exists"
+        has_entity = case["from"].startswith(("orm", "alias_"))
+        has_table = case["from"] in ("core", "core_join_table", "orm_core_join", "group") or case["extra"] == "exists" or case["from"].startswith("alias_")
         ctx.note(case, has_bind and has_entity and has_table, classes=[case["from"], case["extra"], kind, f"proto{case['proto']}", "bind" if has_bind else "nobind"])
+        table_alias = case["from"] in ("alias_archive_names", "alias_flat_join")
+        if table_alias and not case.get("pinned"):
+            # known finding: the Table / Join an aliased() entity is built on carries a "parententity" annotation, which the Serializer
+            # encodes as the *mapper's* selectable (and its columns as the base table's columns).  Not generated; pinned replays exercise it.
+            ctx.exclude("aliased() entity over a plain Table / flat Join under ext.serializer (known finding)")
+            return
         blob = serializer.dumps(stmt, case["proto"])
         st2 = serializer.loads(blob, M.metadata, SS, eng)
         if kind == "query":
             c1, c2 = stmt.statement.compile(eng), st2.statement.compile(eng)
         else:
             c1, c2 = stmt.compile(eng), st2.compile(eng)
+        if str(c1) != str(c2) and table_alias:
+            raise Violation("C51/serializer/aliased-entity-on-table-selectable/" + ("table" if case["from"] == "alias_archive_names" else "flat-join"), f"aliased() entity over a Table/Join: SQL differs after round trip:\n{c1}\n---\n{c2}",
+                            observed=str(c2), expected=str(c1))
         if str(c1) != str(c2):
             raise Violation("C51/serializer/sql-text", f"SQL differs after round trip:\n{c1}\n---\n{c2}", observed=str(c2), expected=str(c1))
         if c1.params != c2.params:
@@ -840,8 +876,11 @@ _pred_st = st.tuples(_pcol, st.sampled_from(["eq", "gt", "in", "like", "isnull",
 
 @st.composite
 def _serializer_cases(draw):
-    frm = draw(st.sampled_from(["core", "core_join_table", "orm", "orm", "orm_join", "orm_join", "orm_core_join", "orm_core_join", "orm_core_join", "group"]))
-    if frm in ("orm", "orm_join"):
+    frm = draw(st.sampled_from(["core", "core_join_table", "orm", "orm", "orm_join", "orm_join", "orm_core_join", "orm_core_join", "orm_core_join", "group",
+                                "alias_plain", "alias_named", "alias_subquery", "alias_archive_names", "alias_archive_sub_names", "alias_flat_join"]))
+    if frm.startswith("alias_"):
+        extra = draw(st.sampled_from(["none", "pair", "cols"]))
+    elif frm in ("orm", "orm_join"):
         extra = draw(st.sampled_from(["none", "exists", "exists", "exists", "limit"]))
     elif frm == "core":
         extra = draw(st.sampled_from(["none", "subquery", "union", "case", "limit", "arith"]))
